@@ -12,6 +12,11 @@ names = [m.name for m in pkgutil.iter_modules(translate.__path__) if m.name not 
 h, broken = core.run_translators(names)
 print("translated fragments:", len(h), "broken:", broken)
 PY
-cd lean && lake build 2>&1 | grep -v '^✔' | tail -40
+cd lean || exit 2
+# the native model driver, then the property module of every claimed check (unclaimed work in progress is not built here)
+lake build bobodrv 2>&1 | grep -v '^✔' | tail -20
 test -x .lake/build/bin/bobodrv || { echo "driver not built"; exit 1; }
+MODS=$(python3 -c "import json; print(' '.join('BoboVerif.Props.'+c['property_id'] for c in json.load(open('../MANIFEST.json'))['checks']))")
+lake build $MODS 2>&1 | grep -v '^✔' | grep -v '^warning\|^ *$\|linter\|Hint\|\[apply\]\|^Note' | tail -40
+lake build $MODS >/dev/null 2>&1 || { echo "property modules failed to build"; exit 1; }
 echo "setup ok"
